@@ -79,12 +79,10 @@ private theorem sums_ordered (M : ℕ) (hM : M ≠ 0) (m m' : ℕ) (hle : m' ≤
       by_cases h0 : m = 0
       · subst h0; simp
       · have h2 : m + m ≠ 0 := by omega
-        simp [h0, h2]
+        simp [h0]
     · have h2 : m - m' ≠ 0 := by omega
       have h3 : m + m' ≠ 0 := by omega
-      have h4 : ¬ (m = m' ∧ m ≠ 0) := fun h => h1 h.1
-      rw [if_neg h2, if_neg h3]
-      first | rw [if_neg h1] | rw [if_neg h4]
+      rw [if_neg h2, if_neg h3, if_neg h1]
       simp
   · have : ∀ j, Real.sin ((m : ℝ) * alphas M j) * Real.sin ((m' : ℝ) * alphas M j)
         = (Real.cos ((m : ℝ) * alphas M j - (m' : ℝ) * alphas M j)
@@ -97,12 +95,11 @@ private theorem sums_ordered (M : ℕ) (hM : M ≠ 0) (m m' : ℕ) (hle : m' ≤
       by_cases h0 : m = 0
       · subst h0; simp
       · have h2 : m + m ≠ 0 := by omega
-        simp [h0, h2]
+        simp [h0]
     · have h2 : m - m' ≠ 0 := by omega
       have h3 : m + m' ≠ 0 := by omega
       have h4 : ¬ (m = m' ∧ m ≠ 0) := fun h => h1 h.1
-      rw [if_neg h2, if_neg h3]
-      first | rw [if_neg h1] | rw [if_neg h4]
+      rw [if_neg h2, if_neg h3, if_neg h4]
       simp
   · have : ∀ j, Real.sin ((m : ℝ) * alphas M j) * Real.cos ((m' : ℝ) * alphas M j)
         = (Real.sin ((m : ℝ) * alphas M j + (m' : ℝ) * alphas M j)
